@@ -18,7 +18,8 @@ Proof. exact final_passes_terminates. Qed.
 Print Assumptions C19_passes_terminate.
 
 Theorem C19_removal_shortens :
-  forall s a b s', find_flag_group s 0 = Some (a, b) -> remove_group s a b false = Ok s' -> (length s' < length s)%nat.
+  forall s from a b s', (from <= length s)%nat -> find_flag_group s from = Some (a, b) -> remove_group s a b false = Ok s' ->
+  (length s' < length s /\ a <= length s')%nat.
 Proof. exact remove_flag_group_shorter. Qed.
 Print Assumptions C19_removal_shortens.
 
@@ -28,10 +29,15 @@ Theorem C19_group_scan_in_bounds :
 Proof. exact find_group_body_end_bounds. Qed.
 Print Assumptions C19_group_scan_in_bounds.
 
-(* the scan does run off the end: an ESCAPED parenthesis followed by ?i: is taken for a flag group
-   (known finding C19-escaped-paren-flag-group); the witness replays on the binary *)
-Theorem C19_escaped_paren_refuted :
-  dont_use_flags $"\(?i:x" = Crash crash_index.
-Proof. exact escaped_paren_flag_group_crashes. Qed.
-Print Assumptions C19_escaped_paren_refuted.
+(* the case the property names: an ESCAPED parenthesis followed by ?i: is ordinary text
+   (a genuine defect found by this check - index out of range - repaired in /repo, fix: 818337f) *)
+Theorem C19_escaped_paren_is_text :
+  dont_use_flags $"\(?i:x" = Ok $"\(?i:x" /\ dont_use_flags $"a(?i:x|y)b\(?i:z" = Ok $"a(?:x|y)b\(?i:z".
+Proof. exact escaped_paren_is_text. Qed.
+Print Assumptions C19_escaped_paren_is_text.
 
+(* what remains outside the theorems: an UNBALANCED flag group runs off the end; the optimiser
+   never prints one (validated on every Join answer by the correspondence and fuzz runs) *)
+Theorem C19_unbalanced_flag_group_crashes : dont_use_flags $"(?i:x" = Crash crash_index.
+Proof. exact unbalanced_flag_group_crashes. Qed.
+Print Assumptions C19_unbalanced_flag_group_crashes.
